@@ -139,7 +139,283 @@ def gen_cases(rng, tier):
                     lam = rng.choice([1e-3, 1.0, 1600.0, 129600.0, 1e7])
                 case["lam"] = float(lam).hex()
             cases.append(case)
+    return cases + gen_sweep_cases(rng, tier)
+
+
+# ---------------------------------------------------------------- round 4: the generator sweep
+# How the series is handed to the function.  The property quantifies over finite series, not over one container: a
+# coordinate filter receives `sim_data_ensemble[j, :, i]` (a strided view of a 3-d array) from BaseLoss._filter_data,
+# the moment calculator a row of the filtered ensemble or a column `real_data[:, i]`, and users pass lists, integer
+# counts and single-precision model output.  Object arrays are outside (scipy.sparse and np.log reject them with an
+# exception in the unchanged tree; nothing is silently wrong).
+REPRS = ["f32", "f16", "i64", "i32", "list", "tuple", "strided", "3dview", "reversed", "c-col", "f-col", "readonly"]
+DT = {"f32": np.float32, "f16": np.float16, "i64": np.int64, "i32": np.int32}
+EPS_DT = {"f32": F(1, 2**23), "f16": F(1, 2**10)}   # unit roundoff x 2 of the narrow float formats
+LAM_REPRS = ["int", "npint64", "npfloat32", "0d", "kw", "npfloat64"]
+LAM_EXACT = [1.0, 1600.0, 129600.0, 4.0, 25.0, 10000000.0]     # integers, exact in float32 as well
+KINDS = ["hp", "cycle1600", "loghp", "difflog", "moments"]
+
+
+def to_repr_values(ys, rep, positive):
+    """the exact float64 values of the series once stored in the container `rep` (narrow floats round, integers round
+    to the nearest integer): the case records THESE values, so that the oracle judges the series the function was given"""
+    a = np.array(ys, dtype=float)
+    if rep in ("f32", "f16"):
+        fi = np.finfo(DT[rep])
+        a = np.clip(a, float(fi.tiny) if positive else -float(fi.max), float(fi.max))
+        return [float(v) for v in a.astype(DT[rep]).astype(float)]
+    if rep in ("i64", "i32"):
+        a = np.clip(np.round(a), 1 if positive else -2.0**30, 2.0**30) + 0.0   # (+ 0.0: an integer has no negative zero)
+        return [float(v) for v in a]
+    return [float(v) for v in a]
+
+
+def far_series(rng, shape, n, positive):
+    """values far from the origin relative to their spread: level 1e5 .. 1e8 with O(1) variation"""
+    xs = base_series(rng, shape, n)
+    level = rng.choice([1e5, 1e6, 1e7, 1e8, 3.3e5, 7.1e7])
+    if not positive and rng.below(3) == 0:
+        level = -level
+    return [level + v for v in xs], level
+
+
+def tiny_mix(rng, xs):
+    """signed zeros and subnormal entries inside an ordinary series"""
+    xs = list(xs)
+    special = [0.0, -0.0, 5e-324, -5e-324, 1e-310, -1e-310, 2.2250738585072014e-308]
+    for _ in range(max(1, len(xs) // 4)):
+        xs[rng.below(len(xs))] = rng.choice(special)
+    return xs
+
+
+def extreme_positive(rng, shape, n):
+    """positive series whose logarithms span the whole binary64 range (-744 .. 709): subnormal and huge neighbours"""
+    if shape == "alternating":
+        ls = [rng.choice([700.0, 650.0]) * (-1.0) ** i for i in range(n)]
+    elif shape == "linear":
+        ls = [-743.0 + (709.0 + 743.0) * i / (n - 1) for i in range(n)]
+    elif shape == "constant":
+        v = rng.choice([-744.0, -720.0, 709.0])
+        ls = [v] * n
+    else:
+        ls = [rng.uniform(-744.0, 709.0) for _ in range(n)]
+    out = []
+    for v in ls:
+        try:
+            e = math.exp(v)
+        except OverflowError:
+            e = 1.7e308
+        out.append(min(max(e, 5e-324), 1.7976931348623157e308))
+    return out
+
+
+def gen_sweep_cases(rng, tier):
+    big = tier != "quick"
+    cases = []
+
+    def add(kind, shape, ys, tag, **extra):
+        case = {"kind": kind, "shape": shape, "n": len(ys), "scale": extra.pop("scale", 1.0), "series": hexl(ys), "tag": tag}
+        if kind == "hp":
+            lam = extra.pop("lam", None)
+            if lam is None:
+                lam = math.exp(rng.uniform(math.log(1e-3), math.log(1e7)))
+                if rng.below(3) == 0:
+                    lam = rng.choice([1e-3, 1.0, 1600.0, 129600.0, 1e7])
+            case["lam"] = float(lam).hex()
+        else:
+            extra.pop("lam", None)
+        case.update(extra)
+        cases.append(case)
+        return case
+
+    def positive_series(shape, n):
+        return make_series(rng, shape, n, True, None)
+
+    # (1) representation of the input
+    for rnd in range(6 if big else 1):
+        for kind in KINDS:
+            pos = kind in ("loghp", "difflog")
+            for rep in REPRS:
+                shape = rng.choice(SHAPES)
+                n = pick_n(rng, 8 if kind == "moments" else 3, 300 if big else 60)
+                if rep in DT:
+                    xs = base_series(rng, shape, n)
+                    if pos:
+                        lo = min(xs)
+                        xs = [v - lo + rng.choice([1.0, 2.0, 40.0]) for v in xs]
+                        sc = rng.choice([1.0, 8.0, 100.0] if rep != "f32" else [1.0, 1e-6, 1e6, 1e-30, 1e30])
+                    else:
+                        sc = rng.choice([1.0, 10.0, 1000.0] if rep != "f32" else [1.0, 1e-6, 1e6, 1e-30, 1e30])
+                    ys = to_repr_values([v * sc for v in xs], rep, pos)
+                else:
+                    ys, sc = make_series(rng, shape, n, pos, [1.0, 1.0, 1e-6, 1e6])
+                add(kind, shape, ys, "repr", repr=rep, scale=sc, mom2d=rng.choice(["C3", "F3", "view3", "col1"]))
+    # (2) far from the origin, signed zeros / subnormals, extreme dynamic range of positive series
+    reps = 5 if big else 1
+    for _ in range(reps):
+        for kind, cnt in (("hp", 6), ("cycle1600", 4), ("loghp", 2), ("difflog", 2), ("moments", 8)):
+            for j in range(cnt):
+                shape = SHAPES[1 + j % 4]
+                n = pick_n(rng, 8 if kind == "moments" else 3, 300 if big else 80)
+                ys, level = far_series(rng, shape, n, kind in ("loghp", "difflog"))
+                add(kind, shape, ys, "far", scale=level, mom2d=rng.choice(["C3", "F3", "view3", "col1"]),
+                    repr=rng.choice(["f64", "f64", "3dview", "i64", "list"]) if j % 2 else "f64")
+                if cases[-1].get("repr") == "i64":
+                    cases[-1]["series"] = hexl(to_repr_values(ys, "i64", True))
+        for kind, cnt in (("hp", 4), ("cycle1600", 2), ("moments", 4)):
+            for j in range(cnt):
+                shape = rng.choice(SHAPES)
+                n = pick_n(rng, 8 if kind == "moments" else 3, 80)
+                if j % 2 == 0:
+                    ys = tiny_mix(rng, base_series(rng, shape, n))
+                    add(kind, shape, ys, "zeros-subnormals")
+                else:
+                    # a whole series on the subnormal grid (1e-308 .. 1e-310; below that one rounding is no longer small
+                    # against the values and "up to rounding" says nothing)
+                    sc = rng.choice([1e-308, 1e-309] if kind == "cycle1600" else [1e-308, 1e-309, 1e-310])
+                    add(kind, shape, [v * sc for v in base_series(rng, shape, n)], "subnormal-scale", scale=sc)
+        for kind in ("loghp", "difflog"):
+            for j in range(3):
+                shape = SHAPES[(j + 1) % 5] if j < 2 else rng.choice(SHAPES)
+                n = pick_n(rng, 3, 60)
+                add(kind, shape, extreme_positive(rng, shape, n), "extreme-range")
+    # (3) lengths at the upper end of the quantifier in the quick tier too (the first-built quick tier stopped at 200)
+    if not big:
+        for kind, n in (("hp", 2000), ("hp", 1999), ("cycle1600", 1500), ("loghp", 1200), ("difflog", 2000), ("moments", 2000),
+                        ("moments", 1001)):
+            shape = rng.choice(["random_walk", "random", "alternating"])
+            ys, sc = make_series(rng, shape, n, kind in ("loghp", "difflog"), [1.0])
+            add(kind, shape, ys, "long", scale=sc)
+    # (4) the smoothing constant in other clothes: Python int, numpy integer / float32 / float64 scalars, 0-d array, keyword
+    for rnd in range(4 if big else 1):
+        for lr in LAM_REPRS:
+            shape = rng.choice(SHAPES[2:])
+            ys, sc = make_series(rng, shape, pick_n(rng, 3, 120), False, [1.0, 1e6])
+            add("hp", shape, ys, "lam-repr", lam=rng.choice(LAM_EXACT), lam_repr=lr, scale=sc)
+    # (5) families for the re-use scenarios: members share the length (and, for hp, series under several constants and one
+    # constant under several series), so whatever a call leaves behind is wrong for the next one
+    for fam in range(4 if big else 1):
+        for kind in KINDS:
+            n = pick_n(rng, 8 if kind == "moments" else 3, 150 if big else 60)
+            pos = kind in ("loghp", "difflog")
+            members = []
+            for j in range(4):
+                shape = ["random_walk", "alternating", "random", "linear"][j]
+                ys, sc = make_series(rng, shape, n, pos, [1.0])
+                members.append((shape, ys))
+            if kind == "hp":
+                lams = [1600.0, rng.choice([0.01, 6.25, 40.0]), rng.choice([129600.0, 1e7])]
+                plan = [(0, 0), (0, 1), (1, 1), (1, 0), (2, 2), (0, 2), (3, 0)]
+                for (m, l) in plan:
+                    add(kind, members[m][0], members[m][1], "family", lam=lams[l], family=f"{kind}-{fam}")
+            else:
+                for shape, ys in members:
+                    add(kind, shape, ys, "family", family=f"{kind}-{fam}")
     return cases
+
+
+JUNK = 7.25
+STRIDED = ("strided", "3dview", "reversed", "c-col")
+
+
+def same_up_to_log_rounding(a, b, case):
+    """bit-equal; for log_and_hp_filter / diff_log_demean_filter on a NON-CONTIGUOUS view also equal up to 1e-12 max|log y|:
+    numpy 1.26 evaluates np.log of a strided float64 view either in its vector loop or through libm depending on where the
+    output buffer happens to lie, and the two differ in the last bit on about 8 % of the elements (measured: 35 of 20000
+    identical calls np.log(x[:, 1]) returned the other variant, every difference exactly 1 ulp).  That is rounding of the log,
+    which the definition clauses allow for anyway; contiguous input is reproducible bit for bit and stays judged so."""
+    a, b = np.asarray(a, dtype=float).ravel(), np.asarray(b, dtype=float).ravel()
+    if a.shape == b.shape and np.array_equal(a, b, equal_nan=True):
+        return True
+    if case["kind"] in ("loghp", "difflog") and case.get("repr") in STRIDED and a.shape == b.shape:
+        with np.errstate(all="ignore"):
+            tol = 1e-12 * float(np.max(np.abs(np.log(unhex(case["series"])))))
+            return bool(np.all(np.abs(a - b) <= tol))
+    return False
+
+
+def build_input(case):
+    """the object handed to the function, and a function telling whether it (and the array it is a view of) still
+    holds what it held"""
+    y = unhex(case["series"])
+    rep = case.get("repr", "f64")
+    n = len(y)
+    parent = None
+    if rep in DT:
+        arr = y.astype(DT[rep])
+        if not np.array_equal(arr.astype(float), y):
+            raise ValueError(f"harness: series not exactly representable as {rep}")
+    elif rep == "list":
+        arr = [float(v) for v in y]
+    elif rep == "tuple":
+        arr = tuple(float(v) for v in y)
+    elif rep == "strided":
+        parent = np.full(2 * n, JUNK)
+        parent[::2] = y
+        arr = parent[::2]
+    elif rep == "3dview":
+        parent = np.full((3, n, 2), JUNK)
+        parent[0, :, 1] = y[::-1]
+        parent[1, :, 1] = y
+        arr = parent[1, :, 1]
+    elif rep == "reversed":
+        parent = y[::-1].copy()
+        arr = parent[::-1]
+    elif rep == "c-col":
+        parent = np.column_stack([np.full(n, JUNK), y, y[::-1]])
+        arr = parent[:, 1]
+    elif rep == "f-col":
+        parent = np.asfortranarray(np.column_stack([np.full(n, JUNK), y, y[::-1]]))
+        arr = parent[:, 1]
+    elif rep == "readonly":
+        arr = y.copy()
+        arr.setflags(write=False)
+    else:
+        arr = y.copy()
+    before = None if parent is None else parent.tobytes()
+
+    def held():
+        if parent is not None and parent.tobytes() != before:
+            return None      # something outside the view was written
+        if isinstance(arr, (list, tuple)):
+            return hexl(arr) if len(arr) == n else None
+        return hexl(np.asarray(arr, dtype=float))
+
+    return arr, held
+
+
+def lam_object(case):
+    lam = float.fromhex(case["lam"])
+    lr = case.get("lam_repr", "float")
+    if lr == "int":
+        return int(lam)
+    if lr == "npint64":
+        return np.int64(lam)
+    if lr == "npfloat32":
+        return np.float32(lam)
+    if lr == "npfloat64":
+        return np.float64(lam)
+    if lr == "0d":
+        return np.array(lam)
+    return lam
+
+
+def mom_2d(case, y):
+    """the 2-d argument of get_mom_ts in several layouts / element types"""
+    rep = case.get("repr", "f64")
+    dt = DT.get(rep, float)
+    cols = [y, y[::-1], np.roll(y, 1)]
+    lay = case.get("mom2d", "C3")
+    if lay == "col1":
+        return np.array(y, dtype=dt).reshape(-1, 1)
+    a = np.column_stack(cols).astype(dt)
+    if lay == "F3":
+        return np.asfortranarray(a)
+    if lay == "view3":
+        big = np.full((len(y), 6), JUNK).astype(dt)
+        big[:, ::2] = a
+        return big[:, ::2]
+    return a
 
 
 # ---------------------------------------------------------------- implementation
@@ -152,40 +428,59 @@ def run_impl(case):
     try:
         # the caller's array object is passed as is (and kept): "sum to the input" is judged against the array the caller
         # still holds after the call, and a second call on that same array must give the same answer
-        arr = y.copy()
+        arr, held = build_input(case)
         if kind == "hp":
-            c, t = ts.hp_filter(arr, float.fromhex(case["lam"]))
+            if case.get("lam_repr") == "kw":
+                def call_hp(a):
+                    return ts.hp_filter(a, lamb=float.fromhex(case["lam"]))
+            else:
+                def call_hp(a):
+                    return ts.hp_filter(a, lam_object(case))
+            c, t = call_hp(arr)
             c, t = np.array(c, dtype=float).ravel(), np.array(t, dtype=float).ravel()
             obs["cycle"], obs["trend"] = hexl(c), hexl(t)
             obs["cycle_bitwise_y_minus_trend"] = bool(np.array_equal(c, y - t))
-            obs["held_input"] = hexl(arr)
-            c2, t2 = ts.hp_filter(arr, float.fromhex(case["lam"]))
+            obs["held_input"] = held()
+            c2, t2 = call_hp(arr)
             obs["repeat_equal"] = bool(np.array_equal(np.asarray(c2).ravel(), c, equal_nan=True) and np.array_equal(np.asarray(t2).ravel(), t, equal_nan=True))
         elif kind == "cycle1600":
             c = np.array(ts.hp_cycle_lamb1600_filter(arr), dtype=float).ravel()
             obs["out"] = hexl(c)
-            obs["held_input"] = hexl(arr)
+            obs["held_input"] = held()
             obs["repeat_equal"] = bool(np.array_equal(np.asarray(ts.hp_cycle_lamb1600_filter(arr)).ravel(), c, equal_nan=True))
             obs["bitwise_equals_hp_filter_1600"] = bool(np.array_equal(c, ts.hp_filter(y.copy(), 1600)[0]))
         elif kind == "loghp":
             o = np.array(ts.log_and_hp_filter(arr), dtype=float).ravel()
             obs["out"] = hexl(o)
-            obs["held_input"] = hexl(arr)
-            obs["repeat_equal"] = bool(np.array_equal(np.asarray(ts.log_and_hp_filter(arr)).ravel(), o, equal_nan=True))
-            obs["nplog"] = hexl(np.log(y))
+            obs["held_input"] = held()
+            obs["repeat_equal"] = same_up_to_log_rounding(ts.log_and_hp_filter(arr), o, case)
+            obs["nplog"] = hexl(np.log(build_input(case)[0]).astype(float))   # the log in the element type of the container
         elif kind == "difflog":
             o = np.array(ts.diff_log_demean_filter(arr), dtype=float).ravel()
             obs["out"] = hexl(o)
-            obs["held_input"] = hexl(arr)
-            obs["repeat_equal"] = bool(np.array_equal(np.asarray(ts.diff_log_demean_filter(arr)).ravel(), o, equal_nan=True))
-            obs["nplog"] = hexl(np.log(y))
+            obs["held_input"] = held()
+            obs["repeat_equal"] = same_up_to_log_rounding(ts.diff_log_demean_filter(arr), o, case)
+            obs["nplog"] = hexl(np.log(build_input(case)[0]).astype(float))
         elif kind == "moments":
-            m = np.asarray(ts.get_mom_ts_1d(y.copy()))
+            m = np.asarray(ts.get_mom_ts_1d(arr))
             obs["shape"] = list(m.shape)
             obs["moments"] = [float(v).hex() if math.isfinite(v) else repr(float(v)) for v in m.ravel()]
+            obs["held_input"] = held()
+            obs["repeat_equal"] = bool(np.array_equal(np.asarray(ts.get_mom_ts_1d(arr)), m, equal_nan=True))
             m2 = np.asarray(ts.get_mom_ts(np.column_stack([y, y[::-1]])))
             obs["shape2d"] = list(m2.shape)
-            obs["col0_equals_1d"] = bool(m2.shape == (18, 2) and np.array_equal(m2[:, 0], m, equal_nan=True))
+            ref0 = m if case.get("repr", "f64") not in DT else np.asarray(ts.get_mom_ts_1d(y.copy()))
+            obs["col0_equals_1d"] = bool(m2.shape == (18, 2) and np.array_equal(m2[:, 0], ref0, equal_nan=True))
+            if "mom2d" in case:
+                # other layouts and element types of the 2-d argument: every column is the summary of that column
+                a2 = mom_2d(case, y)
+                snap = a2.tobytes()
+                mm = np.asarray(ts.get_mom_ts(a2))
+                obs["wrapper_shape"] = list(mm.shape)
+                obs["wrapper_finite"] = bool(np.all(np.isfinite(mm)))
+                obs["wrapper_columns_equal_1d"] = bool(mm.shape == (18, a2.shape[1]) and all(
+                    np.array_equal(mm[:, j], np.asarray(ts.get_mom_ts_1d(a2[:, j])), equal_nan=True) for j in range(a2.shape[1])))
+                obs["wrapper_input_kept"] = bool(a2.tobytes() == snap)
     except Exception as e:  # noqa: BLE001
         obs["error"] = f"{type(e).__name__}: {e}"
     return obs
@@ -234,6 +529,11 @@ def residual_clause(lam, y, t, slack, name):
     return [], sensitive
 
 
+def residual_ratio(lam, y, t, slack):
+    tol = (1 + 16 * lam) * (REL * amax(t) + slack)
+    return float(hp_residual_max(lam, t, y) / tol) if tol else 0.0
+
+
 def central(xs):
     n = len(xs)
     m = sum(xs) / n
@@ -267,6 +567,31 @@ def well_conditioned(xs):
     return m2 > (mx / 1000) ** 2
 
 
+KAPPA_MAX = 10**9
+KAPPA_TOL = 200   # x eps x kappa ; measured worst of the unchanged tree: 4.3 eps kappa (the skewness), see design.d/C20.md
+
+
+def conditioning(xs):
+    """kappa = max|x| / std of a half, None when the half is outside the range where the definition is compared"""
+    if len(xs) < 8:
+        return None
+    mx = amax(xs)
+    if mx == 0 or not (F(1, 10**100) < mx < F(10**100)):
+        return None
+    _, _, (m2, _, _) = central(xs)
+    if m2 <= 0:
+        return None
+    k = float(mx) / math.sqrt(float(m2))
+    return k if k <= KAPPA_MAX else None
+
+
+def log_tol(case):
+    """1e-12 for double precision; for a float32 / float16 series numpy computes the logarithm, the difference and the mean
+    in that format, so "equal up to rounding" is judged in units of that format (32 x 2^-23 or 2^-10; measured <= 1.5)"""
+    rep = case.get("repr", "f64")
+    return 32 * EPS_DT[rep] if rep in EPS_DT else LOGT
+
+
 def oracle(case, obs):
     fails, info = [], {"nontrivial": False}
     if obs["error"]:
@@ -274,6 +599,7 @@ def oracle(case, obs):
     kind = case["kind"]
     y = fr(case["series"])
     n = len(y)
+    ltol = log_tol(case)   # 1e-12, or the rounding of a float32 / float16 element type
     if "held_input" in obs and obs["held_input"] != list(case["series"]):
         fails.append("held-input: the array passed in no longer holds the series after the call, so the returned parts do not sum to "
                      "the input the caller has in hand")
@@ -293,6 +619,7 @@ def oracle(case, obs):
         f2, sens = residual_clause(lam, y, t, F(0), "residual")
         fails += f2
         info["nontrivial"] = sens
+        info["residual_over_tol"] = residual_ratio(lam, y, t, F(0))
     elif kind in ("cycle1600", "loghp"):
         if len(obs["out"]) != n:
             return [f"length: output {len(obs['out'])}, series {n}"], info
@@ -302,8 +629,20 @@ def oracle(case, obs):
         base = y if kind == "cycle1600" else [F(math.log(float(v))) for v in y]
         t = [b - o for b, o in zip(base, out)]
         f2, sens = residual_clause(F(1600), base, t, LOGT * amax(base), "residual1600")
+        obs["log_base_used"] = "double"
+        if f2 and kind == "loghp" and case.get("repr") in EPS_DT and all_finite_hex(obs.get("nplog") or ["nan"]):
+            # numpy takes the logarithm of a float32 / float16 series in that format.  Both readings of "the log" are
+            # accepted: the double-precision one (above) and l' = the element-type one, provided l' is the logarithm up to the
+            # rounding of the format; the HP part is then judged on l' with the double-precision tolerance (the trend of l'
+            # is computed in doubles)
+            lb = fr(obs["nplog"])
+            if len(lb) == n and all(abs(a - b) <= ltol * amax(base) for a, b in zip(lb, base)):
+                base, t = lb, [b - o for b, o in zip(lb, out)]
+                f2, sens = residual_clause(F(1600), base, t, LOGT * amax(base), "residual1600")
+                obs["log_base_used"] = "element-type"
         fails += f2
         info["nontrivial"] = sens
+        info["residual_over_tol"] = residual_ratio(F(1600), base, t, LOGT * amax(base))
     elif kind == "difflog":
         if len(obs["out"]) != n:
             return [f"length: output {len(obs['out'])}, series {n}"], info
@@ -311,16 +650,18 @@ def oracle(case, obs):
             return ["nonfinite: filter returned a non-finite value"], info
         out = fr(obs["out"])
         lg = [F(math.log(float(v))) for v in y]
-        if abs(sum(out)) > LOGT * n * amax(out):
+        if abs(sum(out)) > ltol * n * amax(out):
             fails.append(f"zero_mean: |sum(out)| = {float(abs(sum(out))):.3e} for max|out| = {float(amax(out)):.3e}")
         d = [F(0)] + [lg[i + 1] - lg[i] for i in range(n - 1)]
         mean = sum(d) / n
-        tol = LOGT * amax(lg)
+        tol = ltol * amax(lg)
         for i in range(n):
             if abs(out[i] - (d[i] - mean)) > tol:
                 fails.append(f"definition: element {i} is not the de-meaned difference of the logs (prepend = first)")
                 break
         info["nontrivial"] = abs(mean) > tol
+        if tol:
+            info["definition_over_tol"] = float(max(abs(out[i] - (d[i] - mean)) for i in range(n)) / tol)
     elif kind == "moments":
         if obs["shape"] != [18]:
             return [f"shape: get_mom_ts_1d returned shape {obs['shape']}"], info
@@ -329,34 +670,51 @@ def oracle(case, obs):
             return [f"nonfinite: moments {bad} are not finite"], info
         if obs["shape2d"] != [18, 2] or not obs["col0_equals_1d"]:
             fails.append("get_mom_ts: column 0 of the 2-d summary differs from get_mom_ts_1d of column 0")
+        if "wrapper_shape" in obs and not (obs["wrapper_finite"] and obs["wrapper_columns_equal_1d"] and obs["wrapper_input_kept"]):
+            fails.append(f"get_mom_ts: 2-d argument in layout {case.get('mom2d')} / element type {case.get('repr', 'f64')}: shape "
+                         f"{obs['wrapper_shape']}, finite {obs['wrapper_finite']}, every column equal to get_mom_ts_1d of that column "
+                         f"{obs['wrapper_columns_equal_1d']}, argument unchanged {obs['wrapper_input_kept']}")
         m = [float.fromhex(v) for v in obs["moments"]]
         halves = [("series", y, 0), ("absdiff", [abs(y[i + 1] - y[i]) for i in range(n - 1)], 9)]
         checked = 0
+        rep = case.get("repr", "f64")
+        # float16: sums of squares overflow in half precision (every value above 256), the summary is finite through
+        # nan_to_num only - finiteness, shape and the wrapper are judged, the definition is not compared
+        eps = None if rep == "f16" else float(EPS_DT[rep]) if rep in EPS_DT else 2.0 ** -52
+        worst = 0.0
         for name, xs, o in halves:
-            if not well_conditioned(xs):
+            if eps is None:
+                continue
+            wc = well_conditioned(xs) and rep not in EPS_DT
+            kap = conditioning(xs)
+            if not wc and kap is None:
                 continue
             ref = moments_half_reference(xs)
             if ref is None:
                 continue
+            # well-conditioned double-precision halves keep the first-built tolerances; the others (values far from the
+            # origin relative to their spread, float32 input) get in addition 200 roundings of the element type amplified by
+            # kappa = max|x| / std, the condition number of every centred statistic
+            extra = 0.0 if wc else KAPPA_TOL * eps * kap
+            if extra > 1e-3 or (rep == "f32" and not 1e-8 < float(amax(xs)) < 1e8):
+                continue     # nothing left to compare / fourth powers leave the float32 range (as 1e100 does for doubles)
             mean, sd, sk, ku, acf = ref
             scale = float(amax(xs))
-            cl = []
-            if abs(m[o] - mean) > 1e-10 * scale:
-                cl.append("mean")
-            if abs(m[o + 1] - sd) > 1e-9 * sd:
-                cl.append("std")
-            if abs(m[o + 2] ** 3 - sk) > 1e-8 * (1 + abs(sk)):
-                cl.append("skew_cuberoot")
-            if abs(math.copysign(abs(m[o + 3]) ** 4, m[o + 3]) - ku) > 1e-8 * (1 + abs(ku)):
-                cl.append("kurtosis_fourthroot")
+            errs = {"mean": (abs(m[o] - mean) / scale, 1e-10),
+                    "std": (abs(m[o + 1] - sd) / sd, 1e-9),
+                    "skew_cuberoot": (abs(m[o + 2] ** 3 - sk) / (1 + abs(sk)), 1e-8),
+                    "kurtosis_fourthroot": (abs(math.copysign(abs(m[o + 3]) ** 4, m[o + 3]) - ku) / (1 + abs(ku)), 1e-8)}
             for k in range(5):
-                if abs(m[o + 4 + k] - acf[k]) > 1e-8:
-                    cl.append(f"acf{k + 1}")
+                errs[f"acf{k + 1}"] = (abs(m[o + 4 + k] - acf[k]), 1e-8)
+            cl = [nm for nm, (e, tol) in errs.items() if not e <= tol + extra]
+            worst = max([worst] + [e / (tol + extra) for e, tol in errs.values()])
             if cl:
-                fails.append(f"moments_definition: {name} half: {','.join(cl)} differ from the definition")
+                fails.append(f"moments_definition: {name} half: {','.join(cl)} differ from the definition"
+                             + ("" if wc else f" (kappa = {kap:.3g}, tolerance + {extra:.3g})"))
             checked += 1
         info["nontrivial"] = checked > 0
         info["halves_checked"] = checked
+        info["moments_over_tol"] = worst
     return fails, info
 
 
@@ -379,9 +737,15 @@ def emit_hp(case, obs):
         if not all_finite_hex(obs["nplog"]):
             return None
         lg = unhex(obs["nplog"])
+        if kind == "loghp" and case.get("repr") in EPS_DT and obs.get("log_base_used") == "double":
+            lg = np.log(y)
         if kind == "loghp":
             return f"CaseLogHP {cdyl(lg)} {cdyl(out)}"
         if kind == "difflog":
+            if case.get("repr") in EPS_DT:
+                # computed by numpy entirely in float32 / float16: the model's 1e-12 tolerance is about double precision,
+                # the oracle judges these cases in units of their own format
+                return None
             return f"CaseDiffDemean {cdyl(lg)} {cdyl(out)}"
     except (KeyError, TypeError):
         return None
@@ -391,7 +755,25 @@ def emit_hp(case, obs):
 def emit_ln(case, obs):
     if case["kind"] not in ("loghp", "difflog") or obs.get("nplog") is None or not all_finite_hex(obs["nplog"]):
         return None
+    if case.get("repr") in EPS_DT:
+        # a float32 / float16 logarithm is 2^-24 / 2^-11 accurate: certified by check_ln_case_w (emit_ln_w); the 2^-44 enclosure
+        # applies when the case was judged on double-precision logarithms
+        if case["kind"] == "loghp" and obs.get("log_base_used") == "double":
+            return f"({cdyl(unhex(case['series']))}, {cdyl(np.log(unhex(case['series'])))})"
+        return None
     return f"({cdyl(unhex(case['series']))}, {cdyl(unhex(obs['nplog']))})"
+
+
+LN_W_BITS = {"f32": 19, "f16": 8}   # |ln y - l| <= 2^-k |l| ; observed worst 2^-22.2 (float32), 2^-11 (float16)
+
+
+def emit_ln_w(case, obs):
+    """narrow element types: the logarithms numpy takes in that format are logarithms at that format's accuracy"""
+    if case["kind"] not in ("loghp", "difflog") or case.get("repr") not in EPS_DT:
+        return None
+    if obs.get("nplog") is None or not all_finite_hex(obs["nplog"]):
+        return None
+    return f"({LN_W_BITS[case['repr']]}%positive, ({cdyl(unhex(case['series']))}, {cdyl(unhex(obs['nplog']))}))"
 
 
 def bucket(n):
@@ -419,13 +801,28 @@ def interleaved_calls(chk, cases, observations):
     idx = [i for i, c in enumerate(cases) if c["kind"] in ("hp", "cycle1600", "loghp") and not observations[i]["error"]
            and c["n"] <= 400]
     idx = idx[: 48 if chk.tier == "quick" else 400]
+    # round 4: the other two functions and the other containers take part as well (a few of each kind)
+    per_kind = 8 if chk.tier == "quick" else 40
+    for kind in KINDS:
+        more = [i for i, c in enumerate(cases) if c["kind"] == kind and not observations[i]["error"] and c["n"] <= 400
+                and i not in idx]
+        idx += more[:per_kind // 2] + more[-(per_kind // 2):]
+    idx = list(dict.fromkeys(idx))
     if len(idx) < 4:
         return 0, []
 
     def again(i):
         o = run_impl(cases[i])
-        keys = ("cycle", "trend") if cases[i]["kind"] == "hp" else ("out",)
-        return i, [k for k in keys if o.get(k) != observations[i].get(k)] + (["error"] if o["error"] else [])
+        keys = {"hp": ("cycle", "trend"), "moments": ("moments",)}.get(cases[i]["kind"], ("out",))
+        def differs(k):
+            if o.get(k) == observations[i].get(k):
+                return False
+            try:
+                return not same_up_to_log_rounding(unhex(o[k]), unhex(observations[i][k]), cases[i])
+            except (KeyError, TypeError, ValueError):
+                return True
+
+        return i, [k for k in keys if differs(k)] + (["error"] if o["error"] else [])
 
     bad = []
     import sys
@@ -480,10 +877,107 @@ def interleaved_calls(chk, cases, observations):
     return n_long, bad
 
 
+def call_raw(ts, case, arr):
+    """the objects the function returns (not copies)"""
+    kind = case["kind"]
+    if kind == "hp":
+        return list(ts.hp_filter(arr, float.fromhex(case["lam"])))
+    fn = {"cycle1600": ts.hp_cycle_lamb1600_filter, "loghp": ts.log_and_hp_filter, "difflog": ts.diff_log_demean_filter,
+          "moments": ts.get_mom_ts_1d}[kind]
+    return [fn(arr)]
+
+
+def observed_arrays(case, obs):
+    if case["kind"] == "hp":
+        return [unhex(obs["cycle"]), unhex(obs["trend"])]
+    if case["kind"] == "moments":
+        return [np.array([float.fromhex(v) for v in obs["moments"]])]
+    return [unhex(obs["out"])]
+
+
+def same(a, b):
+    a = np.asarray(a, dtype=float).ravel()
+    return a.shape == b.shape and a.tobytes() == b.tobytes()
+
+
+def reuse_sequences(chk, cases, observations):
+    """Object re-use and sequences (one thread).  The members of a family have one length; each was evaluated alone on a
+    private array and judged by the oracle.  Here the same calls are made the way a loss makes them - one after the other,
+    the results collected in a list, after a call whose outcome nobody uses - and the way a caller with a work buffer makes
+    them - one array refilled in place.  Every result must be, bit for bit, the one obtained alone; results handed out
+    earlier must not change when the function is called again or when the caller overwrites its own input; inputs are
+    left as they were."""
+    from black_it.utils import time_series as ts
+
+    fams = {}
+    for i, c in enumerate(cases):
+        if c.get("family") and not observations[i]["error"] and c.get("repr", "f64") == "f64":
+            fams.setdefault(c["family"], []).append(i)
+    n_calls, bad = 0, []
+    for fam, idx in sorted(fams.items()):
+        if len(idx) < 2:
+            continue
+        kind = cases[idx[0]]["kind"]
+        n = cases[idx[0]]["n"]
+        refs = [observed_arrays(cases[i], observations[i]) for i in idx]
+        rows = [unhex(cases[i]["series"]) for i in idx]
+        problems = []
+        # a call nobody uses the outcome of (outside the quantifier: NaN, two points) must leave nothing behind
+        for junk in (np.full(n, np.nan), np.array([1.0, 2.0]), np.full(n, -1.0)):
+            try:
+                call_raw(ts, cases[idx[0]], junk)
+            except Exception:  # noqa: BLE001
+                pass
+        # (a) results collected in a list, as BaseLoss._filter_data / MethodOfMomentsLoss.compute_loss_1d do
+        ins = [r.copy() for r in rows]
+        outs = []
+        for k, i in enumerate(idx):
+            try:
+                o = call_raw(ts, cases[i], ins[k])
+            except Exception as e:  # noqa: BLE001
+                problems.append(f"member {k}: {type(e).__name__}: {e} (evaluated alone it returned normally)")
+                o = None
+            outs.append(o)
+            n_calls += 1
+            if o is not None and not all(same(a, b) for a, b in zip(o, refs[k])):
+                problems.append(f"member {k}: the call made after {k} other calls of the same length returned something else than the "
+                                f"same call made alone")
+        for k, o in enumerate(outs):
+            if o is not None and not all(same(a, b) for a, b in zip(o, refs[k])) and not any(p.startswith(f"member {k}:") for p in problems):
+                problems.append(f"member {k}: the result handed out by call {k} changed when the function was called again "
+                                f"(the returned array is shared with later calls)")
+        if any(a.tobytes() != r.tobytes() for a, r in zip(ins, rows)):
+            problems.append("an input array was modified")
+        # (b) one work buffer refilled in place by the caller
+        buf = np.empty(n)
+        kept = []
+        for k, i in enumerate(idx):
+            buf[:] = rows[k]
+            try:
+                o = call_raw(ts, cases[i], buf)
+            except Exception as e:  # noqa: BLE001
+                problems.append(f"buffer, member {k}: {type(e).__name__}: {e}")
+                o = None
+            kept.append(o)
+            n_calls += 1
+            if o is not None and not all(same(a, b) for a, b in zip(o, refs[k])):
+                problems.append(f"buffer, member {k}: the caller's array was refilled in place with another series of the same length and "
+                                f"the function returned something else than for a fresh array holding that series")
+        buf[:] = -123.0
+        for k, o in enumerate(kept):
+            if o is not None and not all(same(a, b) for a, b in zip(o, refs[k])) and not any(p.startswith(f"buffer, member {k}:") for p in problems):
+                problems.append(f"buffer, member {k}: the result changed when the caller overwrote its own input array afterwards "
+                                f"(the returned array is a view of the argument or of a shared buffer)")
+        if problems:
+            bad.append((fam, kind, [cases[i] for i in idx], problems))
+    return n_calls, bad
+
+
 def run(chk, replay=None):
     chk.proof_gate()
     if replay:
-        cases = [json.loads(open(replay).read())["case"]]
+        rc = json.loads(open(replay).read())["case"]
+        cases = rc["members"] if rc.get("kind") == "reuse" else [rc]
     else:
         cases = []
         cdir = chk.case_dir.parents[2] / "corpus" / "C20"
@@ -491,6 +985,7 @@ def run(chk, replay=None):
             cases.append(json.loads(f.read_text())["case"])
         cases += gen_cases(chk.rng, chk.tier)
     observations = [run_impl(c) for c in cases]
+    judged = [oracle(c, o) for c, o in zip(cases, observations)]   # (also notes which reading of the log a narrow-float case used)
 
     # ---- model side: one Coq evaluation per shard, shards balanced by series length
     def coq_run(name, imports, fn, ctype, emitter, select):
@@ -502,26 +997,64 @@ def run(chk, replay=None):
         shards = interleave(idx, lambda i: cases[i]["n"], max(1, min(16, len(idx))))
         order = [i for s in shards for i in s]
         # coq_mismatches cuts the list into consecutive chunks; the interleaved order keeps their weights similar
+        size = max(len(s) for s in shards)
         b, errors = chk.coq_mismatches(name, imports, fn, ctype, [lits[i] for i in order],
-                                       shard=max(len(s) for s in shards), timeout=1700, preamble=PREAMBLE)
-        return {order[k] for k in b}, errors, len(order)
+                                       shard=size, timeout=1700, preamble=PREAMBLE)
+        bad = {order[k] for k in b}
+        # A coqc that was KILLED from outside (SIGKILL: the kernel's out-of-memory killer on a shared machine; rc -9, or 137
+        # through `timeout`) has given no verdict on its shard.  Those shards - and only those - are evaluated again, one at
+        # a time, up to three times; a shard that keeps being killed, and every other failure of coqc, is reported (fail
+        # closed: no case is counted as validated without a completed evaluation).
+        import time as _time
+
+        final_errors = []
+        for e in errors:
+            m = re.match(rf"cases_{name}_(\d+)\.v: rc=(-9|137)\b", e)
+            if not m:
+                final_errors.append(e)
+                continue
+            k = int(m.group(1))
+            sub = order[k * size:(k + 1) * size]
+            for attempt in range(3):
+                _time.sleep(15)
+                b2, e2 = chk.coq_mismatches(f"{name}r{k}a{attempt}", imports, fn, ctype, [lits[i] for i in sub],
+                                            shard=len(sub), timeout=1700, preamble=PREAMBLE)
+                if not e2:
+                    bad |= {sub[j] for j in b2}
+                    chk.notes.append(f"coqc on shard {k} of {name} was killed from outside (rc {m.group(2)}); evaluated again, completed")
+                    break
+            else:
+                final_errors.append(e + " (killed again in 3 further attempts)")
+        return bad, final_errors, len(order)
 
     bad_hp, err_hp, n_hp = coq_run("C20hp", IMPORTS_HP, "check_hp_case", "hp_case", emit_hp,
                                    lambda c: c["kind"] != "moments")
     bad_ln, err_ln, n_ln = coq_run("C20ln", IMPORTS_LN, "check_ln_case", "list dy * list dy", emit_ln,
                                    lambda c: c["kind"] in ("loghp", "difflog"))
 
+    bad_lnw, err_lnw, n_lnw = coq_run("C20lnw", IMPORTS_LN, "check_ln_case_w", "positive * (list dy * list dy)", emit_ln_w,
+                                      lambda c: c["kind"] in ("loghp", "difflog") and c.get("repr") in EPS_DT)
+
     stats = Counter()
     nontrivial, keys = set(), set()
     diag = Counter()
+    margins = {}
     for i, (c, o) in enumerate(zip(cases, observations)):
-        fails, info = oracle(c, o)
-        key = json.dumps([c["kind"], c.get("lam"), c["series"]])
+        fails, info = judged[i]
+        key = json.dumps([c["kind"], c.get("lam"), c["series"], c.get("repr", "f64"), c.get("lam_repr")])
         keys.add(key)
         stats[f"kind={c['kind']}"] += 1
         stats[f"shape={c['shape']}"] += 1
         stats[bucket(c["n"])] += 1
         stats[f"scale={c['scale']:g}"] += 1
+        stats[f"repr={c.get('repr', 'f64')}"] += 1
+        stats[f"tag={c.get('tag', 'round1-3')}"] += 1
+        if c.get("lam_repr"):
+            stats[f"lam_repr={c['lam_repr']}"] += 1
+        grp = c.get("tag", "round1-3") if c.get("repr", "f64") not in EPS_DT else "repr-" + c["repr"]
+        for mk in ("residual_over_tol", "definition_over_tol", "moments_over_tol"):
+            if mk in info and not fails:
+                margins[f"{mk}[{grp}]"] = max(margins.get(f"{mk}[{grp}]", 0.0), info[mk])
         if c["kind"] == "hp":
             stats[f"lam~1e{int(math.floor(math.log10(float.fromhex(c['lam']))))}"] += 1
             diag["hp_cycle_bitwise_equal_y_minus_trend"] += int(bool(o.get("cycle_bitwise_y_minus_trend")))
@@ -534,7 +1067,7 @@ def run(chk, replay=None):
         desc_case = {"kind": c["kind"], "shape": c["shape"]}
         if fails:
             diag["oracle_failures"] += 1
-            diag["oracle_failures_also_rejected_in_coq"] += int(i in bad_hp or i in bad_ln)
+            diag["oracle_failures_also_rejected_in_coq"] += int(i in bad_hp or i in bad_ln or i in bad_lnw)
             chk.violation({"kind": "oracle", "filter": c["kind"], "clause": fails[0].split(":")[0]},
                           {"failed": "oracle:" + fails[0], "all": fails, "case": c, "observed": o})
         elif i in bad_hp:
@@ -546,6 +1079,10 @@ def run(chk, replay=None):
             chk.violation({"kind": "correspondence", "name": "check_ln_case", "filter": c["kind"]},
                           {"failed": "correspondence:check_ln_case (np.log value not within 2^-44 of the verified "
                                      "enclosure of ln)", "case": c, "observed": o}, no_input=True)
+        elif i in bad_lnw:
+            chk.violation({"kind": "correspondence", "name": "check_ln_case_w", "filter": c["kind"]},
+                          {"failed": f"correspondence:check_ln_case_w (np.log of a {c.get('repr')} series not within 2^-{LN_W_BITS.get(c.get('repr'))} "
+                                     "of the verified enclosure of ln)", "case": c, "observed": o}, no_input=True)
     n_threaded, tbad = (0, []) if replay else interleaved_calls(chk, cases, observations)
     diag["evaluations_repeated_from_6_threads"] = n_threaded
     if tbad:
@@ -556,7 +1093,13 @@ def run(chk, replay=None):
                                  f"while other lengths / lambdas were being evaluated in other threads returned a different {d} than "
                                  f"when evaluated alone ({len(tbad)} of {n_threaded} repeated evaluations differ)",
                        "case": tc, "observed": None if isinstance(i, dict) else observations[i]})
-    for e in err_hp + err_ln:
+    n_reuse, rbad = reuse_sequences(chk, cases, observations)
+    diag["calls_in_reuse_sequences"] = n_reuse
+    for fam, kind, members, problems in rbad:
+        chk.violation({"kind": "oracle", "filter": kind, "clause": "reuse-differs"},
+                      {"failed": f"oracle:reuse-differs: {kind}, family {fam} (length {members[0]['n']}): {problems[0]}",
+                       "all": problems, "case": {"kind": "reuse", "filter": kind, "members": members}})
+    for e in err_hp + err_ln + err_lnw:
         chk.violation({"kind": "correspondence", "name": "coqc"}, {"failed": "correspondence:coqc", "detail": e}, no_input=True)
 
     step = max(1, len(cases) // 4)
@@ -570,7 +1113,13 @@ def run(chk, replay=None):
                 "(measured): for hp/cycle1600/loghp the same output FAILS the residual test under lam/2, i.e. the case "
                 "distinguishes the smoothing constant (constant and linear series do not: K t = 0); for difflog the removed "
                 "mean exceeds the tolerance; for moments at least one half (series / |diff|) is well-conditioned and was "
-                "compared with the exact-rational definition. distinct = distinct (kind, lam, series)",
+                "compared with the exact-rational definition. distinct = distinct (kind, lam, series, container, lam type). "
+                "Round 4 adds (tag=...): repr = the series handed over as float32/float16/int64/int32 array, list, tuple, strided / "
+                "3-d / reversed / column views, read-only array (the case records the exact values held by the container); far = "
+                "level 1e5..1e8 with O(1) variation; zeros-subnormals / subnormal-scale; extreme-range = positive series whose logs "
+                "span -744..709; long = lengths 1000..2000 in the quick tier; lam-repr = int / numpy scalar / 0-d array / keyword "
+                "smoothing constant; family = members of one length re-evaluated in sequence (results kept in a list, one work "
+                "buffer refilled in place, after a junk call) and from 6 threads, each result bit-equal to the call made alone",
         "samples": [{"kind": cases[i]["kind"], "shape": cases[i]["shape"], "n": cases[i]["n"], "lam": cases[i].get("lam"),
                      "series_head": cases[i]["series"][:4],
                      "observed_head": {k: (v[:3] if isinstance(v, list) else v) for k, v in observations[i].items()}}
@@ -578,9 +1127,11 @@ def run(chk, replay=None):
         "traces_validated_against_impl": n_hp - len(bad_hp),
         "coq_hp_cases": n_hp,
         "coq_ln_cases": n_ln,
-        "model_impl_disagreements": len(bad_hp) + len(bad_ln),
+        "coq_ln_cases_at_float32_float16_accuracy": n_lnw,
+        "model_impl_disagreements": len(bad_hp) + len(bad_ln) + len(bad_lnw),
         "distribution": dict(sorted(stats.items())),
         "diagnostics_not_gating": dict(diag),
+        "worst_observed_fraction_of_tolerance": {k: float(f"{v:.3g}") for k, v in sorted(margins.items())},
         "exhaustive": False,
     }
     return chk.finish(
@@ -590,8 +1141,14 @@ def run(chk, replay=None):
             "the exact residual, on the generated inputs only",
             "np.log is not modelled: its values are certified per element by a verified interval enclosure of ln (2^-44 rel.)",
             "scipy.stats.skew/kurtosis, statsmodels acf, np.nan_to_num are exercised through the oracle only (no model)",
-            "the definitional comparison of the moments is limited to well-conditioned halves (std > 1e-3 max|x|, "
-            "1e-100 < max|x| < 1e100); on the others only finiteness and shape are checked",
+            "the definitional comparison of the moments uses the first-built tolerances on well-conditioned halves (std > 1e-3 "
+            "max|x|, 1e-100 < max|x| < 1e100) and adds 200 eps kappa (kappa = max|x|/std <= 1e9) on ill-conditioned ones and on "
+            "float32 input (eps of float32); float16 input, kappa > 1e9 and magnitudes outside the range: finiteness and shape only",
+            "object arrays are outside the quantifier (rejected with an exception by scipy.sparse / np.log in the unchanged tree); "
+            "unsigned-integer series are not generated (np.diff wraps modulo 2^k: the nine |diff| moments are finite but are not "
+            "those of the definition - noted in design.d/C20.md, the property text only asks for finiteness)",
+            "for float32 / float16 series numpy computes log, difference and mean in that format: those cases are judged at 32 "
+            "roundings of the format (measured <= 1.5) and, for log_and_hp_filter, on either reading of the log",
         ],
         trusted=["CoqInterval (FloatIntervalFull over BigIntRadix2) for the ln enclosures",
                  "the property oracle uses Python Fractions and math.log"],
